@@ -266,6 +266,21 @@ pub fn c20_cases(rng: &mut Rng, tier: &str) -> (Vec<Case>, bool) {
         }
         cases.push(Case { ops, checks, tag: "handshakes".into(), nontrivial: true, show: format!("handshake {}", hello) });
     }
+    // one document over two editing sessions: opened, changed several times (the version grows), opened again (the version
+    // starts again at 1), changed again - every notification is answered for ITS text
+    for (close, k) in [(true, 0usize), (false, 0), (true, 3), (false, 2)] {
+        let texts = ["10 PRINT 1", "10 PRINT 1\n20 GOTO 99", "10 PRINT \"é\" + 1\n20 X = 1.2.3\n30 REM end", "10 A = 1 : B = 2 : C = 3", "", "10 PRINT \"open", "10 FOR I = 1 TO 3\n20 NEXT J", "10 REM done"];
+        let mut ops = vec!["new 0 0".to_string()];
+        let mut checks = vec![];
+        for (i, t) in texts.iter().enumerate() {
+            // (`lspo` sends a close first when the text has an even length)
+            let t = if i == 4 { if close { "" } else { " " } } else { t };
+            let word = if i == 4 { "lspo" } else { "lspu" };
+            ops.push(if t.is_empty() { format!("{} {}", word, k) } else { format!("{} {} {}", word, k, hexs(t)) });
+            checks.push(format!("lsp-wellformed {}", ops.len() - 1));
+        }
+        cases.push(Case { ops, checks, tag: "two-editing-sessions".into(), nontrivial: true, show: format!("document {}: four changes, opened again ({} close), three changes", k, if close { "after a" } else { "without" }) });
+    }
     // the same document opened twice with different texts (with or without a close in between): the second open is
     // answered for ITS text - shorter, longer, clean after broken, broken after clean
     let pairs = [("10 PRINT \"é\" + 1\n20 GOTO 99\n30 X = 1.2.3", "10 PRINT 1"), ("10 PRINT 1", "10 PRINT \"é\" + 1\n20 GOTO 99"), ("10 REM a\n20 REM b\n30 PRINT \"x", ""), ("", "10 PRINT \"open")];
